@@ -12,6 +12,11 @@ class BasicZoneProcessorTest_init {
     }
 };
 
+class ExtendedZoneProcessorTest_setZoneInfo {
+  public:
+    static long poolSize() { return ExtendedZoneProcessor::kMaxTransitions; }
+};
+
 ENTRY(z_layout) {
   __verif_observe("bas_numTransitions_off", BasicZoneProcessorTest_init::numTransitionsOffset());
 }
@@ -115,4 +120,5 @@ ENTRY(z_ext_highwater) {
   __verif_observe("isError", off.isError());
   __verif_observe("highWater", proc.getTransitionHighWater());
   __verif_observe("bufSize", zi->transitionBufSize);
+  __verif_observe("poolSize", ExtendedZoneProcessorTest_setZoneInfo::poolSize());
 }
